@@ -28,6 +28,8 @@ def run(ctx):
     check_v1_pools(ctx, model, C, "C01-V1")
     check_fee_lookup_same_asset(ctx, model, C, "C01-V1")
     check_raw_balance_single_consumer(ctx, model, C, "C01-V1")
+    from .poolvalue import check_fee_deduction_all_kinds
+    check_fee_deduction_all_kinds(ctx, model, C, "C01-V1")
     # owed protocol fees: the pending entry is transferred to the collector and zeroed only where transferred (C07-F3's rule)
     from .C07 import check_collect as _pool_collect
     _pool_collect(ctx, model, C, "%s::commands::collect_protocol_fees" % C, "%s::state::COLLECTED_PROTOCOL_FEES" % C, rule="C01-V1")
